@@ -2032,3 +2032,6 @@ m("C07", "unquoted-value-keeps-empty-quote", ZP,
             ):
                 quote = '"'
 ''', "")
+m("C14", "translate-mapping-in-set-order", C,
+  "            for name in sorted(names):\n",
+  "            for name in names:\n")
